@@ -267,13 +267,13 @@ def make_task(rng, kind, i, scale, basis=True, const_form=None):
     if kind == "constant":
         op = rand_constant_op(rng, i, scale, const_form)
         circ = rand_basis_circ(rng, rng.randint(1, 3))
-        shots = rng.choice([0, 1, 7, rng.randint(1, 50)])
+        shots = rng.choice([0, 1, 7, rng.randint(1, 50), rng.choice([49, 98, 103, 107, 161, 187, 196, 197])])
     else:
         width = rng.randint(1, 4)
         op = rand_ising_op(rng, width, i, scale)
         w = op_width(op)
         circ = rand_basis_circ(rng, w) if basis else rand_circ(rng, w)
-        shots = 0 if kind == "zeroshot" else rng.choice([1, 1, 2, rng.randint(1, 50)])
+        shots = 0 if kind == "zeroshot" else rng.choice([1, 1, 2, rng.randint(1, 50), rng.choice([49, 98, 103, 107, 161, 187, 196, 197, rng.randint(51, 300)])])
     return {"kind": kind, "op": op, "circ": circ, "shots": shots}
 
 
